@@ -119,6 +119,10 @@ class SumAggregator:
 
             sa = condition.literal.atom.symbol
             p = Predicate(sa.name, len(sa.arguments))
+            if not (set(collect_ast(condition, "Variable")) & global_vars).issubset(collect_ast(sa, "Variable")):
+                # the bound holds per instance of a body variable that the atom does not carry:
+                # atoms of different instances are not limited against each other
+                return ret
             unprojected: list[int] = []
             for index, arg in enumerate(sa.arguments):
                 local_vars = set(collect_ast(arg, "Variable"))
